@@ -2,7 +2,7 @@
 //! reference encoder, symbolic numeric fields, distinct concrete strings.
 #![allow(unused_imports)]
 
-use crate::c02::Enc;
+use crate::common::Enc;
 use crate::common::*;
 use crate::silent::*;
 use gamedig::games::{battalion1944, eco, ffow, jc2m, mindustry, savage2, theship};
